@@ -176,7 +176,10 @@ func Scan(rows Rows, db *DB, mode ScanMode) {
 			idx            int
 		)
 		if isPtr {
-			given = *destPtr
+			if given = *destPtr; !update && len(given) > 0 {
+				// a query starts from an empty result, as it does for a slice of structs
+				*destPtr = make([]map[string]interface{}, 0, len(given))
+			}
 		} else if given, _ = dest.([]map[string]interface{}); !update {
 			// a slice handed in by value can only be back-filled, not appended to
 			db.AddError(ErrInvalidValue)
